@@ -55,12 +55,12 @@ func init() {
 }
 
 func runC02(c *core.Ctx) {
-	checkFrontendAccessWidths(c)
+	checkFrontendAccessWidths(c, "R02.1")
 	checkReloadClearsCache(c)
 	checkExtendFolding(c)
 	checkBackendMemOperandWidths(c)
 	checkIreduceZeroExtends(c)
-	checkInterpreterWidths(c)
+	checkInterpreterWidths(c, "R02.6")
 }
 
 // ---------------------------------------------------------------------------------------------------------
@@ -68,16 +68,16 @@ func runC02(c *core.Ctx) {
 
 var ssaTypeBytes = map[string]int64{"TypeI32": 4, "TypeF32": 4, "TypeI64": 8, "TypeF64": 8, "TypeV128": 16}
 
-func checkFrontendAccessWidths(c *core.Ctx) {
+func checkFrontendAccessWidths(c *core.Ctx, rule string) {
 	p := c.Pkg("internal/engine/wazevo/frontend")
 	if p == nil {
-		c.Undecided("R02.1", "frontend", 0, "package not loaded")
+		c.Undecided(rule, "frontend", 0, "package not loaded")
 		return
 	}
 	info := p.TypesInfo
 	d := dispatcherOf(p)
 	if d == nil {
-		c.Undecided("R02.1", "frontend dispatcher", 0, "not found")
+		c.Undecided(rule, "frontend dispatcher", 0, "not found")
 		return
 	}
 	// the checking helpers: functions of Compiler with a parameter list (base, constOffset, size) that return an address
@@ -123,7 +123,7 @@ func checkFrontendAccessWidths(c *core.Ctx) {
 				ev.run(cc.Body, map[types.Object]aval{})
 				construct := "frontend arm " + name + " checks " + strconv.Itoa(w) + " byte(s)"
 				if len(ev.calls) == 0 {
-					c.Violate("R02.1", construct, cc.Pos(), "the arm emits "+strings.Join(emitsAccess(cc), ", ")+" but never calls the bounds-checking address helper: the access is not checked against the memory size")
+					c.Violate(rule, construct, cc.Pos(), "the arm emits "+strings.Join(emitsAccess(cc), ", ")+" but never calls the bounds-checking address helper: the access is not checked against the memory size")
 					continue
 				}
 				var bad []string
@@ -139,11 +139,11 @@ func checkFrontendAccessWidths(c *core.Ctx) {
 				}
 				switch {
 				case len(bad) > 0:
-					c.Violate("R02.1", construct, cc.Pos(), "the instruction accesses "+strconv.Itoa(w)+" byte(s) but "+strings.Join(bad, "; ")+" as the access size: an access ending beyond the memory size (or elided against a smaller checked ceiling) is not trapped and touches bytes outside the linear memory")
+					c.Violate(rule, construct, cc.Pos(), "the instruction accesses "+strconv.Itoa(w)+" byte(s) but "+strings.Join(bad, "; ")+" as the access size: an access ending beyond the memory size (or elided against a smaller checked ceiling) is not trapped and touches bytes outside the linear memory")
 				case undec:
-					c.Undecided("R02.1", construct, cc.Pos(), "size argument of the checking helper is not a constant for this label")
+					c.Undecided(rule, construct, cc.Pos(), "size argument of the checking helper is not a constant for this label")
 				default:
-					c.Discharge("R02.1", construct, cc.Pos(), fmt.Sprintf("%d helper call(s), size %d", len(ev.calls), w))
+					c.Discharge(rule, construct, cc.Pos(), fmt.Sprintf("%d helper call(s), size %d", len(ev.calls), w))
 				}
 			}
 			// bulk operations
@@ -157,7 +157,7 @@ func checkFrontendAccessWidths(c *core.Ctx) {
 				if name == "OpcodeMiscMemoryCopy" {
 					need = 2
 				}
-				c.Check(len(ev.calls) >= need, "R02.1", "frontend arm "+name+" range-checks its operands", cc.Pos(), fmt.Sprintf("%d range check(s)", len(ev.calls)),
+				c.Check(len(ev.calls) >= need, rule, "frontend arm "+name+" range-checks its operands", cc.Pos(), fmt.Sprintf("%d range check(s)", len(ev.calls)),
 					fmt.Sprintf("only %d call(s) of the range check, %d operand range(s) in linear memory: a bulk operation reads or writes outside the memory", len(ev.calls), need))
 			}
 		}
@@ -629,17 +629,17 @@ var (
 	reKindWidth = regexp.MustCompile(`^operationKind(?:Atomic)?(?:Load|Store|RMW)(\d+)`)
 )
 
-func checkInterpreterWidths(c *core.Ctx) {
+func checkInterpreterWidths(c *core.Ctx, rule string) {
 	p := c.Pkg("internal/engine/interpreter")
 	if p == nil {
-		c.Undecided("R02.6", "interpreter", 0, "package not loaded")
+		c.Undecided(rule, "interpreter", 0, "package not loaded")
 		return
 	}
 	info := p.TypesInfo
 	// (a) lowering: constructor width == mnemonic width
 	ds := dispatchersOf(p)
 	if len(ds) == 0 {
-		c.Undecided("R02.6", "interpreter lowering", 0, "dispatcher not found")
+		c.Undecided(rule, "interpreter lowering", 0, "dispatcher not found")
 		return
 	}
 	d := ds[0]
@@ -690,11 +690,11 @@ func checkInterpreterWidths(c *core.Ctx) {
 			construct := "interpreter lowering of " + name + " uses a " + strconv.Itoa(w) + "-byte operation"
 			switch {
 			case found == 0:
-				c.Undecided("R02.6", construct, cc.Pos(), "no memory operation constructor recognised in the arm")
+				c.Undecided(rule, construct, cc.Pos(), "no memory operation constructor recognised in the arm")
 			case !okAll:
-				c.Violate("R02.6", construct, cc.Pos(), "the mnemonic accesses "+strconv.Itoa(w)+" byte(s) but the arm emits "+strings.Join(got, "; ")+": the interpreter checks and touches a different number of bytes than the compiler")
+				c.Violate(rule, construct, cc.Pos(), "the mnemonic accesses "+strconv.Itoa(w)+" byte(s) but the arm emits "+strings.Join(got, "; ")+": the interpreter checks and touches a different number of bytes than the compiler")
 			default:
-				c.Discharge("R02.6", construct, cc.Pos(), fmt.Sprintf("%d constructor(s)", found))
+				c.Discharge(rule, construct, cc.Pos(), fmt.Sprintf("%d constructor(s)", found))
 			}
 		}
 		return !handledL
@@ -709,7 +709,7 @@ func checkInterpreterWidths(c *core.Ctx) {
 		}
 	})
 	if exec == nil {
-		c.Undecided("R02.6", "interpreter execution loop", 0, "callNativeFunc not found")
+		c.Undecided(rule, "interpreter execution loop", 0, "callNativeFunc not found")
 		return
 	}
 	m := 0
@@ -752,7 +752,7 @@ func checkInterpreterWidths(c *core.Ctx) {
 			}
 			if len(acc) > 0 {
 				m++
-				c.Check(len(bad) == 0, "R02.6", "interpreter arm "+kindName+" accesses "+strconv.Itoa(kindW)+" byte(s)", list[0].Pos(), fmt.Sprintf("%d accessor call(s) of that width", len(acc)),
+				c.Check(len(bad) == 0, rule, "interpreter arm "+kindName+" accesses "+strconv.Itoa(kindW)+" byte(s)", list[0].Pos(), fmt.Sprintf("%d accessor call(s) of that width", len(acc)),
 					"the arm uses "+strings.Join(bad, ", ")+": bounds check and access cover a different number of bytes than the instruction")
 			}
 		}
@@ -814,7 +814,7 @@ func checkInterpreterWidths(c *core.Ctx) {
 	})
 	c.Count("interpreter_memory_exec_checks", m)
 	if m < 20 {
-		c.Undecided("R02.6", "interpreter execution arms", exec.Pos(), fmt.Sprintf("only %d width-checked arm(s) found", m))
+		c.Undecided(rule, "interpreter execution arms", exec.Pos(), fmt.Sprintf("only %d width-checked arm(s) found", m))
 	}
 	sort.Strings(nil)
 }
